@@ -263,10 +263,10 @@ def api_level(ctx, by_cfg):
         subset_builds(ctx, b, by_cfg[b.cfg]["A"])
 
 
-def host_text(name, lines):
-    return ("abi <abi/4.0>,\n\ninclude <tunables/global>\n\n@{exec_path} = @{bin}/%s\nprofile %s @{exec_path} {\n"
+def host_text(name, lines, pre="", var="bin"):
+    return ("abi <abi/4.0>,\n\ninclude <tunables/global>\n\n%s@{exec_path} = @{%s}/%s\nprofile %s @{exec_path} {\n"
             "  include <abstractions/base>\n\n  @{exec_path} mr,\n\n%s\n\n  /etc/%s r,\n\n  include if exists <local/%s>\n}\n"
-            % (name, name, "\n".join(lines), name, name))
+            % (pre, var, name, name, "\n".join(lines), name, name))
 
 
 def subset_builds(ctx, b, ref):
@@ -298,12 +298,14 @@ def subset_builds(ctx, b, ref):
     if len(good) < 4:
         ctx.inconcl("subset builds: only %d usable generated hosts" % len(good))
         return
-    early = {"aaa-verif-%d" % i: host_text("aaa-verif-%d" % i, [c[2]]) for i, c in enumerate(good)}
+    # (every third early host appends to a variable of the shipped tunables in its own preamble; the late hosts use those variables)
+    early = {"aaa-verif-%d" % i: host_text("aaa-verif-%d" % i, [c[2]], pre=("@{%s} += /opt/aaa-verif-%d/%s\n" % (v_, i, v_)) if i % 3 == 0 else "", var=v_)
+             for i, c in enumerate(good) for v_ in [("lib", "bin", "sbin")[i % 3]]}
     # the late hosts name the same targets, each with another directive line of the pool
     late = {}
     for i, c in enumerate(good):
         o = good[(i + 1) % len(good)]
-        late["zzz-verif-%d" % i] = host_text("zzz-verif-%d" % i, [c[2], o[2]] if c[2] != o[2] else [c[2]])
+        late["zzz-verif-%d" % i] = host_text("zzz-verif-%d" % i, [c[2], o[2]] if c[2] != o[2] else [c[2]], var=("lib", "bin", "sbin")[i % 3])
 
     def mut(hosts):
         def m(src):
